@@ -295,6 +295,10 @@ _EDITS = [
  ("C14", "Five fix: commits;", "Six fix: commits;"),
  ("C07", "profiles_monotone, profiles_ends. Specification layer",
   "profiles_monotone, profiles_ends; closing_temperature_is_where_pocket_closes (the temperature closeInsert inserts is the point of the segment at which the curve takes the pocket's opening value again, and lies between the two rows). Specification layer"),
+ ("C03", "covering_ladder_closes_hot", "covering_ladder_closes_hot (and hot_cover_exists: after the data preparation - model of _find_extreme_process_temperatures / _complete_utility_data / _add_default_utilities, tied to the code by the `defaults` correspondence on 600+ random cases per run - some active hot utility's whole shifted band lies at or above every cold stream's shifted target, for ANY streams, utilities and DT_CONT; cold_cover_fails_witness: the mirror statement is false of the code, kernel-decided - the known cold-sufficiency-sign finding)"),
+ ("C04", "NOT proved: the target-temperature side of a gliding utility's profile (the Q_tt limit), hence",
+  "gliding_level_respects_return_limit - for EVERY valid interval past a gliding utility's target temperature the share of its duty still to be released beyond that row fits the load the profile holds there (the Q_tt limit; false of the code under seeded change C09-glide-cap-max). NOT proved: the row-wise inequality on rows that are not ends of valid intervals, hence"),
+ ("C07", "closing_temperature_is_where_pocket_closes (", "exit_search_spec (_pocket_exit_index returns the row before the FIRST row, up to and including the pinch row, whose value has dropped to h0 - tol, every row passed over staying above it; false of the code under seeded change C07-exit-search-skips-pinch-row); closing_temperature_is_where_pocket_closes ("),
  ("C18", "Oracle: 10 refrigerants x random",
   "Oracle: refrigerants (half from 10 common ones, half from every fluid of the property library with a two-phase range above -60 C, 90+ fluids) x random"),
 ]
